@@ -17,9 +17,20 @@ package main
 //	4  one outbound call is begun; Close (state InboundClosed, held by the outbound call); the
 //	   peer sends a ping req; the peer answers the call.
 //	5  no Close: the peer pings an Active connection with k calls in flight.
+//	6  (V07) k outbound calls are begun and in flight; a further beginCall is parked at
+//	   outbound.afterStateCheck (it has seen an Active connection, its exchange is not registered
+//	   yet); Close -- NO inbound call is in flight, so the connection walks on to InboundClosed
+//	   (k >= 1) or all the way to Closed (k = 0) inside that Close; release; the peer answers the
+//	   others.  The raced call must fail locally at once with ErrConnectionClosed, leave no
+//	   exchange and put nothing on the wire.
+//	7  (V07) the same with k >= 1 inbound calls dispatched (the connection stops in StartClose).
+//	8, 9  (V07) as 6, 7 with the beginCall parked at outbound.afterNewExchange (registered, re-check
+//	   still to come).
 //
 // Observable (same encoding as the model): final connection state, stopCh closed, the error
-// frames that reached the peer (id, code) in order, ping res received.
+// frames that reached the peer (id, code) in order, ping res received; kinds 6, 7 add the outcome
+// of the raced beginCall (20 a call was returned, 22 ErrConnectionClosed from the re-check) and the
+// number of outbound exchanges left at the end.
 // Oracle (from the statement): the raced request is answered with exactly one declined frame
 // while the connection is open (kinds 0, 1) -- or, when Close had already completed, the peer sees
 // the end of the stream (not silence); an accepted call runs to completion and its result -- a
@@ -264,6 +275,7 @@ func cr07Case(kind, k, code, pos int, byChannel bool) (obs []int64, verdict stri
 		}
 	}
 	pong := int64(0)
+	var extra []int64
 	others := make([]uint32, 0, k)
 	for i := 1; i <= k; i++ {
 		others = append(others, uint32(100+i))
@@ -443,6 +455,11 @@ func cr07Case(kind, k, code, pos int, byChannel bool) (obs []int64, verdict stri
 		case <-time.After(2 * time.Second):
 			fail(fmt.Sprintf("outbound call %d begun before Close: no result within 2s of the peer's response", id))
 		}
+	case 6, 7, 8, 9:
+		extra = cr07OutRace(w, kind, k, others, byChannel, fail)
+		if extra == nil {
+			return nil, "", false
+		}
 	}
 	if expectClosed {
 		if !w.eofWithin(2 * time.Second) {
@@ -472,7 +489,182 @@ func cr07Case(kind, k, code, pos int, byChannel bool) (obs []int64, verdict stri
 		obs = append(obs, e[0], e[1])
 	}
 	obs = append(obs, pong)
+	if extra != nil {
+		obs = append(obs, extra[0], int64(tchannel.VerifC07Observe(w.conn).Outbound))
+	}
 	return obs, verdict, true
+}
+
+type cr07OutCall struct {
+	id      uint32
+	resDone chan error
+}
+
+// cr07Begin begins an outbound call on the connection, writes its arguments and reads the
+// response in the background.
+func cr07Begin(ctx context.Context, w *cr07World) (*cr07OutCall, error) {
+	call, id, err := tchannel.VerifC07BeginCall(ctx, w.conn, "peer", "m")
+	if err != nil {
+		return nil, err
+	}
+	oc := &cr07OutCall{id: id, resDone: make(chan error, 1)}
+	e := tchannel.NewArgWriter(call.Arg2Writer()).Write([]byte("a2"))
+	if e == nil {
+		e = tchannel.NewArgWriter(call.Arg3Writer()).Write([]byte("a3"))
+	}
+	if e != nil {
+		oc.resDone <- e
+		return oc, nil
+	}
+	go func() {
+		var r2, r3 []byte
+		e := tchannel.NewArgReader(call.Response().Arg2Reader()).Read(&r2)
+		if e == nil {
+			e = tchannel.NewArgReader(call.Response().Arg3Reader()).Read(&r3)
+		}
+		if e == nil && string(r3) != fmt.Sprintf("r3-%d", id) {
+			e = fmt.Errorf("wrong response %q", r3)
+		}
+		oc.resDone <- e
+	}()
+	return oc, nil
+}
+
+func (p *c07Peer) cr07CallReqs() []uint32 {
+	p.mu.Lock()
+	defer p.mu.Unlock()
+	return append([]uint32(nil), p.callReqs...)
+}
+
+// cr07OutRace: kinds 6 and 7 -- a call start between its state check and its registration while
+// Close lands.  Returns [outcome] (nil: the forced schedule could not be followed).
+func cr07OutRace(w *cr07World, kind, k int, others []uint32, byChannel bool, fail func(string)) []int64 {
+	ctx, cancel := context.WithTimeout(context.Background(), 30*time.Second)
+	defer cancel()
+	var outs []*cr07OutCall
+	point := ptOutCheck
+	if kind >= 8 {
+		point = ptOutNewEx
+	}
+	outbound := kind == 6 || kind == 8
+	if outbound {
+		for i := 0; i < k; i++ {
+			oc, err := cr07Begin(ctx, w)
+			if err != nil {
+				return nil
+			}
+			outs = append(outs, oc)
+		}
+		// the call reqs of the calls in flight have reached the peer
+		deadline := time.Now().Add(2 * time.Second)
+		for len(w.peer.cr07CallReqs()) < k && time.Now().Before(deadline) {
+			time.Sleep(100 * time.Microsecond)
+		}
+		if len(w.peer.cr07CallReqs()) < k {
+			return nil
+		}
+	} else {
+		for _, id := range others {
+			if !w.dispatch(id, 0) {
+				return nil
+			}
+		}
+	}
+	sentBefore := len(w.peer.cr07CallReqs())
+	type res struct {
+		oc  *cr07OutCall
+		err error
+	}
+	resC := make(chan res, 1)
+	w.ctl.arm(point)
+	go func() {
+		oc, err := cr07Begin(ctx, w)
+		resC <- res{oc, err}
+	}()
+	park, got := w.ctl.await(nil, 2*time.Second)
+	if !got || park == nil {
+		return nil
+	}
+	w.ctl.disarm()
+	if !w.closeIt(byChannel, k == 0 && kind < 8) {
+		close(park.resume)
+		return nil
+	}
+	stateAtRelease := tchannel.VerifC07State(w.conn)
+	t0 := time.Now()
+	close(park.resume)
+	outcome := int64(-1)
+	var raced *cr07OutCall
+	var where string
+	if outbound {
+		where = fmt.Sprintf("a new outbound call whose start was parked at %s while Close ran (connection state %d at its release, %d outbound call(s) in flight, no inbound call)", point, stateAtRelease, k)
+	} else {
+		where = fmt.Sprintf("a new outbound call whose start was parked at %s while Close ran (connection state %d at its release, %d inbound call(s) in flight)", point, stateAtRelease, k)
+	}
+	select {
+	case r := <-resC:
+		el := time.Since(t0)
+		switch {
+		case r.err == nil:
+			outcome, raced = 20, r.oc
+			fail(where + " was ADMITTED: beginCall returned a call, want the local error ErrConnectionClosed (new outbound calls fail locally)")
+		case tchannel.VerifC07ErrKind(r.err) == 1:
+			outcome = 22
+			if el > time.Second {
+				fail(fmt.Sprintf("%s failed with ErrConnectionClosed only after %v: not at once", where, el))
+			}
+		default:
+			outcome = -3
+			fail(fmt.Sprintf("%s failed with %v, want ErrConnectionClosed", where, r.err))
+		}
+	case <-time.After(2 * time.Second):
+		fail(where + " did not return within 2s of its release: it did not fail locally")
+		return []int64{-2}
+	}
+	// nothing of the raced call is on the wire: flush with a ping round trip while the connection is open
+	if tchannel.VerifC07State(w.conn) != 4 {
+		select {
+		case <-w.peer.ping(0x7f000003):
+		case <-w.peer.eof:
+		case <-time.After(time.Second):
+		}
+	} else {
+		w.eofWithin(time.Second)
+	}
+	if n := len(w.peer.cr07CallReqs()) - sentBefore; n != 0 {
+		fail(fmt.Sprintf("%s: %d call req frame(s) of it reached the peer after Close had returned", where, n))
+	}
+	// the accepted calls drain
+	for _, oc := range outs {
+		w.peer.sendCallRes(oc.id)
+		select {
+		case e := <-oc.resDone:
+			if e != nil {
+				fail(fmt.Sprintf("outbound call %d was begun before Close; the peer's response was not delivered to the caller: %v", oc.id, e))
+			}
+		case <-time.After(2 * time.Second):
+			fail(fmt.Sprintf("outbound call %d begun before Close: no result within 2s of the peer's response", oc.id))
+		}
+	}
+	if !outbound {
+		for _, id := range others {
+			if !w.finish(id) {
+				return nil
+			}
+			if v := w.delivered(id, 0, ""); v != "" {
+				fail(v)
+			}
+		}
+	}
+	if raced != nil && tchannel.VerifC07State(w.conn) != 4 {
+		// the wrongly admitted call was sent on an open connection: answer it so that the connection drains
+		w.peer.sendCallRes(raced.id)
+		select {
+		case <-raced.resDone:
+		case <-time.After(time.Second):
+		}
+	}
+	return []int64{outcome}
 }
 
 func engineCloseRace(rng *rand.Rand, n int, tier string, o *Out) {
@@ -483,15 +675,15 @@ func engineCloseRace(rng *rand.Rand, n int, tier string, o *Out) {
 			break
 		}
 		// the first cases walk through every kind with k = 0 (the sole-exchange schedules)
-		kind := c % 6
+		kind := c % 10
 		k := 0
-		if c >= 12 {
-			kind = rng.Intn(6)
+		if c >= 20 {
+			kind = rng.Intn(10)
 			k = rng.Intn(3)
-		} else if c >= 6 {
+		} else if c >= 10 {
 			k = 1
 		}
-		if kind == 3 && k == 0 {
+		if (kind == 3 || kind == 7 || kind == 9) && k == 0 {
 			k = 1
 		}
 		if kind == 4 {
@@ -500,11 +692,11 @@ func engineCloseRace(rng *rand.Rand, n int, tier string, o *Out) {
 		code, pos := 0, 0
 		if kind == 2 {
 			code = codes[rng.Intn(len(codes))]
-			if c < 12 {
+			if c < 20 {
 				code = codes[1+rng.Intn(len(codes)-1)]
 			}
 			pos = rng.Intn(k + 1)
-			if c < 12 {
+			if c < 20 {
 				pos = k // the target is the last exchange in flight
 			}
 		}
